@@ -298,6 +298,18 @@ theorem fill_loop {β : Type} (n : Nat) (d : β) (body : Nat → Array β → R 
   simp only [Nat.zero_add] at hP
   exact toList_of_cells s' n g hP.1 (fun k hk => hP.2 k hk)
 
+/-- the same from an arbitrary initial block of the right size (e.g. `memset` over an existing buffer) -/
+theorem fill_loop_from {β : Type} (n : Nat) (init : Array β) (hsz : init.size = n) (body : Nat → Array β → R (Array β))
+    (g : Nat → β) (hb : ∀ i buf, i < n → buf.size = n → body i buf = .ok (buf.setIfInBounds i (g i))) :
+    forUp body n 0 init = .ok ((List.range n).map g).toArray := by
+  obtain ⟨s', hf, hP⟩ := forUp_inv body (Filled n g) n 0 init ⟨hsz, fun k hk => by omega⟩
+    (fun j t _ hj hP => ⟨_, hb j t (by omega) hP.1, hP.step (by omega)⟩)
+  rw [hf]
+  congr 1
+  apply Array.ext'
+  simp only [Nat.zero_add] at hP
+  exact toList_of_cells s' n g hP.1 (fun k hk => hP.2 k hk)
+
 theorem range_map_getElem {α : Type} (l : List α) (d : α) : (List.range l.length).map (fun k => l.getD k d) = l := by
   apply List.ext_getElem?
   intro k
